@@ -65,6 +65,7 @@ def leaves(v, out, path=''):
         a = np.asarray(getattr(v, 'value', v))
         if isinstance(v, np.ma.MaskedArray):
             a = np.ma.filled(v.astype(float), np.nan) if v.dtype.kind in 'fiu' else np.asarray(v)
+            a = np.asarray(getattr(a, 'value', a))
         if a.dtype.kind == 'b':
             out.append((path, 'exact', (a.shape, a.astype(np.int64).tobytes()), has_unit))
         elif a.dtype.kind in 'fiu':      # the dtype of a numeric output may follow the input dtype; the numbers must agree
